@@ -235,6 +235,61 @@ fn run_merge(rep: &mut Report, streams: &[Stream], order: &[u8], stray_at: Optio
     }
 }
 
+/// A transfer is abandoned after k packets and a new message is sent on the same channel: the new
+/// message is delivered exactly once, on its last packet, unaltered (while another channel transmits).
+fn reuse_case(rep: &mut Report, seed: u64, idx: u64) {
+    let mut rng = Rng::derive(seed, "c16r", idx);
+    rep.eval();
+    let channel = *rng.pick(&[1u32, 7, 0xFFFF_FFFF, 0x0102_0304]);
+    let l1 = *rng.pick(&[58usize, 116, 117, 200, 500, 3000]);
+    let l2 = *rng.pick(&[0usize, 1, 57, 58, 116, 200, 700]);
+    let (c1, c2) = (rng.below(9), rng.below(9));
+    let p1 = rng.bytes(l1);
+    let p2 = rng.bytes(l2);
+    let case = json!({"index": idx, "kind": "channel-reuse", "channel": channel, "abandoned": {"command": COMMANDS[c1].1, "payload_len": l1}, "new": {"command": COMMANDS[c2].1, "payload_len": l2}});
+    let Some(old) = send_and_check(rep, channel, c1, &p1, &case) else { return };
+    let Some(new) = send_and_check(rep, channel, c2, &p2, &case) else { return };
+    let Some(other) = send_and_check(rep, channel ^ 0x55, 1, &[3u8; 130], &case) else { return };
+    let cut = rng.range(1, old.len() - 1);
+    let mut case = case;
+    case["abandoned_after_packets"] = json!(cut);
+    let r = catch(|| {
+        let mut h = ChannelHandler::default();
+        let mut out: Vec<(usize, u32, u8, Vec<u8>)> = Vec::new();
+        let mut early = false;
+        for p in &old[..cut] {
+            early |= h.handle_packet(p).is_some();
+        }
+        let _ = h.handle_packet(&other[0]);
+        for (i, p) in new.iter().enumerate() {
+            if let Some(m) = h.handle_packet(p) {
+                out.push((i, m.channel, m.command.encode() & 0x7f, m.payload.clone()));
+            }
+            if i == 0 {
+                let _ = h.handle_packet(&other[1]);
+            }
+        }
+        let other_done = h.handle_packet(&other[2]).map(|m| m.payload.len());
+        (out, early, other_done)
+    });
+    match r {
+        Err((sig, d)) => rep.violate(&format!("receiver (channel reuse) {sig}"), d, case),
+        Ok((out, early, other_done)) => {
+            if early {
+                rep.violate("channel reuse: an unfinished transfer delivered a message", String::new(), case.clone());
+            }
+            if out.len() != 1 || out[0].0 != new.len() - 1 || out[0].1 != channel || out[0].2 != COMMANDS[c2].1 || out[0].3 != p2 {
+                rep.violate("channel reuse: a message sent after an abandoned transfer on the same channel is not delivered exactly once, unaltered, on its last packet", format!("deliveries {:?}", out.iter().map(|o| (o.0, o.2, o.3.len())).collect::<Vec<_>>()), case.clone());
+            }
+            if other_done != Some(130) {
+                rep.violate("channel reuse: another channel's message was affected", format!("{other_done:?}"), case.clone());
+            }
+            rep.count("channel_reuse_checked");
+            rep.nontrivial(fnv(format!("reuse|{l1}|{l2}|{cut}|{channel}").as_bytes()));
+        }
+    }
+}
+
 fn all_merges(counts: &[usize], cur: &mut Vec<u8>, left: &mut Vec<usize>, out: &mut Vec<Vec<u8>>, cap: usize) {
     if out.len() >= cap {
         return;
@@ -364,6 +419,14 @@ pub fn run(args: &Args) -> Report {
         }
         if only.map_or(true, |o| o == idx) {
             interleave_case(&mut rep, args.seed, idx, k % 2 == 0);
+        }
+    }
+    if !miri {
+        for k in 0..args.size(300, 6000) as u64 {
+            let idx = 20_000_000 + k;
+            if only.map_or(true, |o| o == idx) {
+                reuse_case(&mut rep, args.seed, idx);
+            }
         }
     }
     rep.obs("lengths_covered", json!(lengths.len()));
